@@ -190,9 +190,9 @@ func init() {
 		LevelText: "all rune-read sites of the lexer and all stores to the two row fields are enumerated and decided.", LevelNote: "row fields and the advancing function are resolved by role (the int field incremented next to the lexer advance; the field assigned from it)", DesignRef: "4 RC; 5 C06"})
 
 	claim("C07", PropertySpec{
-		Engines: []EngineSpec{rules("ED", "ED-1", "ED-2")},
-		Clause: "A diagnostic, once produced, reaches the report: (ED-1) the diagnostics list has a single appending writer under the reporting-round test and is otherwise only reset per round; (ED-2) at each of the call sites whose callee may return a diagnostic built in eval / eval/method_evaluator (186 today, closed over return statements and the VTA call graph) the error result is read — not a call statement, not `_`, not a dead value.",
-		NotCovered: "whether the diagnostic is produced at all (argument checking, lookup, overloads: runtime type sets)",
+		Engines: []EngineSpec{rules("ED", "ED-1", "ED-2"), all("CHK")},
+		Clause: "The declaration check cannot be by-passed: (CHK) from every call that collects the evaluated arguments of a configured call, every path to a success return passes through a declaration check of the collected list (collector and checker resolved by signature shape; all 14 call sites). And a diagnostic, once produced, reaches the report: (ED-1) the diagnostics list has a single appending writer under the reporting-round test and is otherwise only reset per round; (ED-2) at each of the call sites whose callee may return a diagnostic built in eval / eval/method_evaluator (186 today, closed over return statements and the VTA call graph) the error result is read — not a call statement, not `_`, not a dead value.",
+		NotCovered: "what the declaration check concludes (lookup, overloads, acceptance of types: runtime type sets)",
 	}, propMeta{Technique: "error-flow analysis over go/ssa and the VTA call graph (diagnostic sources closed over return statements; dead-value detection at call sites) + who-may-write rule on the diagnostics field",
 		LevelText: "all call sites returning an error are enumerated; those that can carry a diagnostic are decided exactly (the value is read or it is not).",
 		LevelNote: "callees that can only return nil or lexical errors of package parser are exempt by derivation; reviewed exceptions (recovery scans, speculative re-evaluation) are printed in the evidence", DesignRef: "4 ED; 5 C07"})
@@ -241,8 +241,8 @@ func init() {
 	}, propMeta{Technique: "def-use rule on the binder's parameter over go/ssa + comparator shape check", LevelText: "all callers of the canonicaliser are enumerated; each use of the raw parameter is decided.", LevelNote: "canonicaliser resolved by role: func([]*T) []*T that partitions and sorts", DesignRef: "4 ORD-canon; 5 C14"})
 
 	claim("C15", PropertySpec{
-		Engines: []EngineSpec{rules("PAIR", "PAIR-snap"), rules("REG", "REG-rounds"), rules("ORD", "ORD-agree")},
-		Clause: "Argument types saved before a method body is analysed are restored on every exit (must-pass-through from the snapshot call to the restore call), the round protocol is consistent (every round name compared is produced; diagnostics are recorded in the last round), and the binder's two canonical orders agree: call-site keywords are sorted by the stored key text, the same text the parameter names are sorted by (otherwise an argument is matched with the wrong parameter or never propagated).",
+		Engines: []EngineSpec{rules("PAIR", "PAIR-snap"), rules("REG", "REG-rounds"), rules("ORD", "ORD-agree", "ORD-canon")},
+		Clause: "Argument types saved before a method body is analysed are restored on every exit (must-pass-through from the snapshot call to the restore call), the round protocol is consistent (every round name compared is produced; diagnostics are recorded in the last round), and the binder's two canonical orders agree: call-site keywords are sorted by the stored key text, the same text the parameter names are sorted by, and no return of the canonicaliser by-passes the sort (otherwise an argument is matched with the wrong parameter or never propagated).",
 		NotCovered: "the propagation rules themselves",
 	}, propMeta{Technique: "must-pass-through over the SSA CFG + agreement of string constants", LevelText: "all snapshot call sites and all round comparisons are enumerated and decided.", LevelNote: "snapshot/restore functions resolved by role (writer/reader of the package-level map[FrameKey]T)", DesignRef: "4 PAIR, REG-rounds; 5 C15"})
 
@@ -265,8 +265,8 @@ func init() {
 	}, propMeta{Technique: "dominance over the SSA CFG of the analysis loop with call-graph print summaries + provenance (root object) comparison of record components", LevelText: "all printing calls of the loop and all file+row record assemblies are enumerated and decided.", LevelNote: "file-name fields are anchored by name (FileName); integer row parameters are followed to their call sites", DesignRef: "4 ORD-load, ORD-prov; 5 C18"})
 
 	claim("C19", PropertySpec{
-		Engines: []EngineSpec{rules("ORD", "ORD-overload", "ORD-lastwins")},
-		Clause: "The loader's 'method already exists → overload' test must be an exact-key lookup: it must not reach, in the call graph, a function that walks the inheritance table (then the answer depends on which extends edges earlier files created, i.e. on file names and splitting); and no store of the loader into a shared keyed table is a plain overwrite (it is guarded by a test reading the same entry, or accumulates onto it), so that no 'last file wins'.",
+		Engines: []EngineSpec{rules("ORD", "ORD-overload", "ORD-lastwins"), rules("GEN", "GEN-mono", "GEN-scope")},
+		Clause: "The loader's 'method already exists → overload' test must be an exact-key lookup: it must not reach, in the call graph, a function that walks the inheritance table (then the answer depends on which extends edges earlier files created, i.e. on file names and splitting); and no store of the loader into a shared keyed table is a plain overwrite (it is guarded by a test reading the same entry, or accumulates onto it), so that no 'last file wins'; synthetic names that become part of a key of a process-wide table come from a process-wide, monotone generator — never from a counter kept in a per-file object (GEN).",
 		NotCovered: "every other order dependence of the loader (documents, registry order)",
 	}, propMeta{Technique: "call-graph reachability from the lookup used by the overload test", LevelText: "both overload sites are enumerated and decided.", LevelNote: "overload sites resolved by role: stores to the Overloads field in package builtin", DesignRef: "4 ORD-overload; 5 C19"})
 
